@@ -73,3 +73,16 @@ func TestF37_SubAppConstraintSurvivesMount(t *testing.T) {
 		t.Fatalf("mounted: handler ran=%v status=%d although the constraint rejects every value", ran, rc.Response.StatusCode())
 	}
 }
+
+// F38: the star/root shortcuts were decided on the pattern after its escape characters were removed:
+// the pattern `/\*` — a literal asterisk — became a catch-all route.
+func TestF38_EscapedAsteriskIsALiteral(t *testing.T) {
+	app := fiber.New()
+	app.Get(`/\*`, func(c fiber.Ctx) error { return c.SendString("literal") })
+	if st := do(app, "GET", "/anything/x").Response.StatusCode(); st != 404 {
+		t.Errorf(`GET /anything/x on pattern /\*: status %d, want 404`, st)
+	}
+	if st := do(app, "GET", "/*").Response.StatusCode(); st != 200 {
+		t.Errorf(`GET /* on pattern /\*: status %d, want 200`, st)
+	}
+}
